@@ -118,6 +118,16 @@ static model_t m0;                /* state before cs_run */
 static void *final_val[MAXID]; static int final_known; static int final_id_of[MAXN];
 static int m_name_with_id(model_t *m, int id) { for (int n = 0; n < MAXN; n++) if (m->id_of[n] == id) return n; return -1; }
 
+static int written_during(op_t *o, void *v)
+{
+    for (int k = 0; k < nops; k++) {
+        op_t *p = &ops[k];
+        if (p == o || p->id != o->id || !(p->call < o->ret && o->call < p->ret)) continue;
+        if ((p->type == O_SET || p->type == O_TAS) && p->a == v) return 1;
+        if (p->type == O_GET && p->made && p->made == v) return 1;
+    }
+    return 0;
+}
 static int seq_check(const int *order, int n, void *ctx)
 {
     (void)ctx; model_t m = m0;
@@ -125,7 +135,13 @@ static int seq_check(const int *order, int n, void *ctx)
         op_t *o = &ops[order[i]];
         switch (o->type) {
         case O_SET: m.val[o->id] = o->a; break;                     /* the old value returned by set is not part of the property */
-        case O_TAS: { void *want = (m.val[o->id] == o->b) ? o->a : m.val[o->id]; if (o->res != want) return 0; m.val[o->id] = want; } break;
+        case O_TAS:
+            /* "replaces a value only when it matches": at its linearization point the slot matches => replaced, returns the new value;
+             * otherwise nothing is replaced and the value reported back is the slot's content at that point or a value written to the
+             * slot while the call was still running (the implementation re-reads the slot after a failed compare-and-swap) */
+            if (m.val[o->id] == o->b) { if (o->res != o->a) return 0; m.val[o->id] = o->a; }
+            else if (o->res != m.val[o->id] && !written_during(o, o->res)) return 0;
+            break;
         case O_GET:
             if (m.val[o->id]) { if (o->res != m.val[o->id]) return 0; }
             else {
@@ -263,12 +279,45 @@ static void s6_t0(void *a) { (void)a; do_set(0, P1); do_get(0); }
 static void s6_t1(void *a) { (void)a; do_tas(1, P2, NULL); do_get(1); }
 static void scen_grow_from_empty(void) { setup(ATTR_STD, 2, 0, NULL); cs_body_t b[] = { s6_t0, s6_t1 }; cs_run(2, b, NULL); finish_and_check(); }
 
+/* S7 (2 threads): get || get of a slot that does not exist yet: both grow the array and both construct a default */
+static void s7_t(void *a) { (void)a; do_get(1); }
+static void scen_get_get_new_slot(void) { void *pre[1] = { P3 }; setup(ATTR_STD, 2, 1, pre); cs_body_t b[] = { s7_t, s7_t }; cs_run(2, b, NULL); finish_and_check(); }
+
+/* S8 (2 threads): test_and_set+get on slot 0 || set(new slot) -> growth, then test_and_set on slot 0 */
+static void s8_t0(void *a) { (void)a; do_tas(0, P1, NULL); do_get(0); }
+static void s8_t1(void *a) { (void)a; do_set(1, P2); do_tas(0, P2, P1); }
+static void scen_tas_vs_grow_tas(void) { setup(ATTR_STD, 2, 1, NULL); cs_body_t b[] = { s8_t0, s8_t1 }; cs_run(2, b, NULL); finish_and_check(); }
+
+/* S9 (2 threads): unregister(b) (destructor, slot 1 holds p2) || set on the new slot 2 -> growth.
+ * OBSERVATION ONLY (not part of the check, run with --observe): the property quantifies over concurrent
+ * register/lookup/set/get/test_and_set histories, not over concurrent unregister. See NOTES.md. */
+static void s9_t0(void *a) { (void)a; do_unreg(1); }
+static void s9_t1(void *a) { (void)a; do_set(2, P3); do_get(2); }
+static void scen_unregister_vs_grow(void) { void *pre[2] = { P1, P2 }; setup(ATTR_STD, 3, 2, pre); cs_body_t b[] = { s9_t0, s9_t1 }; cs_run(2, b, NULL); finish_and_check(); }
+
 static cs_scenario_t scenarios[] = {
     { "set_get_vs_register_grow", scen_set_grow, 0 },
+    { "grow_from_empty", scen_grow_from_empty, 0 },
+    { "get_get_new_slot", scen_get_get_new_slot, 0 },
+    { "tas_get_vs_grow_tas", scen_tas_vs_grow_tas, 0 },
+    /* three threads: capped by --cap3 */
     { "tas_tas_vs_get_grow", scen_tas_tas_grow, 0 },
     { "get_get_ctor_vs_set_grow", scen_get_get_grow, 0 },
     { "grow_grow_vs_get_tas", scen_grow_grow, 0 },
     { "register_register_lookup", scen_reg_reg_lookup, 0 },
-    { "grow_from_empty", scen_grow_from_empty, 0 },
+    /* only with --observe */
+    { "unregister_vs_grow", scen_unregister_vs_grow, 0 },
 };
-int main(int argc, char **argv) { return cs_main(argc, argv, "C41", scenarios, sizeof(scenarios) / sizeof(scenarios[0]), NULL); }
+#define FIRST3 4
+#define NCHECKED 8
+int main(int argc, char **argv)
+{
+    int n = NCHECKED, na = 0; char *av[64];
+    for (int i = 0; i < argc && na < 63; i++) {
+        if (!strcmp(argv[i], "--cap3") && i + 1 < argc) { for (int k = FIRST3; k < NCHECKED; k++) scenarios[k].max_bound = atoi(argv[i + 1]); i++; }
+        else if (!strcmp(argv[i], "--observe")) n = sizeof(scenarios) / sizeof(scenarios[0]);
+        else av[na++] = argv[i];
+    }
+    av[na] = NULL;
+    return cs_main(na, av, "C41", scenarios, n, NULL);
+}
